@@ -774,14 +774,14 @@ pub fn c09(tier: Tier) -> Check {
                (2) reference-encoded packets of random representable specs must be accepted and read back to the spec; non-trivial = accepted with a non-header field",
         assumptions: vec!["either-zones (no value demanded): padding count not a multiple of 4, BYE reason whose length octet runs into the padding, BYE zero length octet (None or empty)"],
         legs: vec![
-            Box::new(RandomLeg { name: "generated-strings", cases: tier.pick(200_000, 5_000_000), make: Box::new(gen::parser_input), oracle: c09_oracle }),
+            Box::new(RandomLeg { name: "generated-strings", cases: tier.pick(600_000, 5_000_000), make: Box::new(gen::parser_input), oracle: c09_oracle }),
             Box::new(RandomLeg {
                 name: "mutated-valid-only",
-                cases: tier.pick(100_000, 2_000_000),
+                cases: tier.pick(300_000, 2_000_000),
                 make: Box::new(|| prop_oneof![gen::mutated_bytes(), gen::valid_image()].prop_map(Bytes).boxed()),
                 oracle: c09_oracle,
             }),
-            Box::new(RandomLeg { name: "reference-encoded-specs", cases: tier.pick(60_000, 1_500_000), make: Box::new(|| {
+            Box::new(RandomLeg { name: "reference-encoded-specs", cases: tier.pick(180_000, 1_500_000), make: Box::new(|| {
                     // an unknown-builder packet that carries the type number of a known kind is not a well-formed packet of that kind
                     gen::leaf_spec(false, true)
                         .prop_map(|mut s| {
@@ -969,7 +969,7 @@ pub fn c11(tier: Tier) -> Check {
                non-trivial = accepted with >= 2 tiles, or an erroring tile that is not last",
         assumptions: vec!["Packet has no PartialEq: Ok items are compared through their Debug rendering, which prints the whole underlying slice"],
         legs: vec![
-            Box::new(RandomLeg { name: "generated-datagrams", cases: tier.pick(120_000, 3_000_000), make: Box::new(compound_case), oracle: c11_oracle }),
+            Box::new(RandomLeg { name: "generated-datagrams", cases: tier.pick(360_000, 3_000_000), make: Box::new(compound_case), oracle: c11_oracle }),
             Box::new(SweepLeg { name: "length-chains", n, at: Box::new(at), oracle: c11_oracle, exhaustive: true }),
             Box::new(ListLeg { name: "datagrams-beyond-64KiB", cases: big_tilings(), oracle: c11_big_oracle }),
         ],
@@ -1105,8 +1105,8 @@ pub fn c12(tier: Tier) -> Check {
                the class histogram lists the matrix cells hit; non-trivial = Packet::parse returned Ok",
         assumptions: vec![],
         legs: vec![
-            Box::new(RandomLeg { name: "generated-strings", cases: tier.pick(150_000, 4_000_000), make: Box::new(gen::parser_input), oracle: c12_oracle }),
-            Box::new(RandomLeg { name: "valid-images", cases: tier.pick(40_000, 800_000), make: Box::new(|| gen::valid_image().prop_map(Bytes).boxed()), oracle: c12_oracle }),
+            Box::new(RandomLeg { name: "generated-strings", cases: tier.pick(450_000, 4_000_000), make: Box::new(gen::parser_input), oracle: c12_oracle }),
+            Box::new(RandomLeg { name: "valid-images", cases: tier.pick(120_000, 800_000), make: Box::new(|| gen::valid_image().prop_map(Bytes).boxed()), oracle: c12_oracle }),
             Box::new(SweepLeg { name: "header-space", n, at: Box::new(move |i| sweep.at(i)), oracle: c12_oracle, exhaustive: true }),
             len_leg(tier, c12_len_oracle),
         ],
